@@ -40,7 +40,10 @@ type Meta struct {
 func NewSqliteDb(dbFile string, rootID string) (*DbSqlite, error) {
 	ret := &DbSqlite{}
 
-	pragmas := "_pragma=foreign_keys(1)&_pragma=journal_mode(WAL)&_pragma=synchronous(NORMAL)&_pragma=busy_timeout(8000)&_pragma=journal_size_limit(100000000)"
+	// busy_timeout must come first: the pragmas run in this order on every new
+	// connection, and journal_mode(WAL) needs a lock that a concurrent writer may
+	// hold -- without a busy timeout in place it fails at once with SQLITE_BUSY
+	pragmas := "_pragma=busy_timeout(8000)&_pragma=foreign_keys(1)&_pragma=journal_mode(WAL)&_pragma=synchronous(NORMAL)&_pragma=journal_size_limit(100000000)"
 
 	dbFileOptions := fmt.Sprintf("%s?%s", dbFile, pragmas)
 
